@@ -10,13 +10,13 @@
 EXTENDS Relate, Json, IOUtils
 
 Trace == ndJsonDeserialize(IOEnv.TRACE)
-VARIABLES l, grp, ref, inp, viol
-vars == <<l, grp, ref, inp, viol>>
+VARIABLES l, grp, ref, inp, inbio, viol
+vars == <<l, grp, ref, inp, inbio, viol>>
 Ev == Trace[l]
 Is(e) == l <= Len(Trace) /\ Trace[l].e = e
 None == [k |-> "none"]
 
-Init == l = 1 /\ grp = [gid |-> "none", rel |-> "none", prop |-> "none"] /\ ref = None /\ inp = <<>> /\ viol = {}
+Init == l = 1 /\ grp = [gid |-> "none", rel |-> "none", prop |-> "none"] /\ ref = None /\ inp = <<>> /\ inbio = 2 /\ viol = {}
 
 Report(v) ==
     /\ viol' = v
@@ -28,6 +28,7 @@ TGroup ==
     /\ grp' = [gid |-> Ev.gid, rel |-> Ev.rel, prop |-> Ev.prop]
     /\ ref' = None
     /\ inp' = <<>>
+    /\ inbio' = 2
     /\ Report({})
 
 Result(ev) == [k |-> "ok", names |-> ev.names, seqs |-> ev.seqs]
@@ -44,20 +45,25 @@ Check(r) ==
        ELSE IF grp.rel = "columns" THEN (IF ~SameColumns(ref, r) THEN tag("columns-differ") ELSE {})
        ELSE {"unknown-relation"}
 
+(* C12: the premise is evaluated by the specification on the object as read; a case that does not meet it is skipped, not judged *)
+PremiseOk == grp.rel # "duprows" \/ (inp # <<>> /\ HasDup(inp) /\ Len(inp) < 100 /\ DupPremise(inp, IF inbio = 1 THEN A_DNA ELSE A_RED13))
+
 TMember ==
     /\ Is("Obj") /\ Ev.tag = "out"
     /\ l' = l + 1
     /\ LET r == IF Ev.null = 0 /\ Ev.status = 3 /\ Ev.rows = 1 THEN Result(Ev) ELSE [k |-> "fail"]
        IN /\ ref' = IF ref.k = "none" THEN r ELSE ref
-          /\ Report(Check(r) \cup (IF r.k = "ok" /\ inp # <<>> /\ ~LettersKept(inp, r.seqs) THEN {grp.prop \o ":output-letters-differ-from-input"} ELSE {}))
+          /\ IF ~PremiseOk THEN PrintT(<<"KVSKIP", l, grp.gid, "premise">>) /\ Report({}) ELSE
+             Report(Check(r) \cup (IF r.k = "ok" /\ inp # <<>> /\ ~LettersKept(inp, r.seqs) THEN {grp.prop \o ":output-letters-differ-from-input"} ELSE {}))
     /\ inp' = <<>>
-    /\ UNCHANGED grp
+    /\ UNCHANGED <<grp, inbio>>
 
 (* the object as read: the input letters of the member that follows *)
 TIn ==
     /\ Is("Obj") /\ Ev.tag = "in"
     /\ l' = l + 1
     /\ inp' = IF Ev.null = 0 THEN Ev.seqs ELSE <<>>
+    /\ inbio' = IF Ev.null = 0 THEN Ev.biotype ELSE 2
     /\ UNCHANGED <<grp, ref>>
     /\ Report({})
 
@@ -68,13 +74,13 @@ TArr ==
     /\ LET r == IF Ev.rc = 0 THEN [k |-> "ok", names |-> [i \in 1..Len(Ev.rows) |-> <<i>>], seqs |-> Ev.rows] ELSE [k |-> "fail"]
        IN /\ ref' = IF ref.k = "none" THEN r ELSE ref
           /\ Report(Check(r))
-    /\ UNCHANGED <<grp, inp>>
+    /\ UNCHANGED <<grp, inp, inbio>>
 
 TOther ==
     /\ l <= Len(Trace)
     /\ ~(Ev.e = "Group" \/ (Ev.e = "Obj" /\ Ev.tag \in {"in", "out"}) \/ Ev.e = "Arr")
     /\ l' = l + 1
-    /\ UNCHANGED <<grp, ref, inp>>
+    /\ UNCHANGED <<grp, ref, inp, inbio>>
     /\ Report({})
 
 Next == TGroup \/ TMember \/ TIn \/ TArr \/ TOther
